@@ -161,7 +161,8 @@ def collect(act, P, F, K, T, D):
 
 def split_problem(ops, W, nfiles):
     P = W.P
-    files = [{"name": P["name"], "objects": {}, "facts": set(), "fluents": {}, "goal": []} for _ in range(nfiles)]
+    files = [{"name": P["name"], "objects": {}, "facts": set(), "fluents": {}, "goal": [], "goal_num": []}
+             for _ in range(nfiles)]
 
     def owners():
         o = {ops.draw(nfiles)}
@@ -190,6 +191,12 @@ def split_problem(ops, W, nfiles):
         for fi in owners():
             files[fi]["goal"].append(g)
             need(fi, g[1:])
+    for g in P.get("goal_num", []):
+        # a numeric goal is put into exactly one agent file unless the run is in the shared-numeric-goal profile
+        fis = owners() if P.get("share_numeric_goals") else [ops.draw(nfiles)]
+        for fi in fis:
+            files[fi]["goal_num"].append(g)
+            need(fi, g[2][2])
     for F in files:
         F["objects"] = {o: P["objects"][o] for o in P["objects"] if o in F["objects"]}
     return files
@@ -505,6 +512,22 @@ def run(ctx):
     check_union(ctx, walker.w_domain(d2), union, W, dummy, "re-parsed combined export")
     check_bystanders("after export_combined_domain")
     # ---- problems
+    # numeric goals (<= / >= on a ground fluent), some of them differing only beyond the fourth decimal
+    goal_num = []
+    # (a ground fluent with a repeated argument in a numeric *goal* loses the repetition at parse time - a problem-parse
+    # defect outside the claimed properties (C05/C09); such goals are not generated)
+    fl_keys = sorted(k for k in W.P["fluents"] if len(set(k[1:])) == len(k) - 1)
+    if fl_keys:
+        for _ in range(ops.draw(4)):
+            k = ops.pick(fl_keys)
+            c = ops.num(9, 0.5) + [0.0, 0.00001, 0.00004, 0.25][ops.draw(4)]
+            g = ("cmp", ops.pick(["<=", ">="]), ("fn", k[0], list(k[1:])), c)
+            if all(repr(g) != repr(x) for x in goal_num):
+                goal_num.append(g)
+    share = cfg.chance(1, 6) and len(goal_num) > 0 and nfiles > 1
+    if share:
+        ctx.profile = "shared-numeric-goal"
+    W.P = dict(W.P, goal_num=goal_num, share_numeric_goals=share)
     pfiles = split_problem(ops, W, nfiles)
     prefix = ["problem", "pfile", "p", "prob-x"][cfg.draw(4)]
     for i, PF in enumerate(pfiles):
@@ -622,3 +645,16 @@ def check_problem_union(ctx, cp, wp, W, what):
     if sorted(wp["goal"]) != sorted(set(map(tuple, P["goal"]))):
         raise Violation("C17/problem-union-differs", site,
                         f"{what}: goals {sorted(wp['goal'])} vs {sorted(set(map(tuple, P['goal'])))}")
+    want_num = sorted(repr(("cmp", g[1], G.canon_x(g[2]), G.canon_x(g[3]))) for g in P.get("goal_num", []))
+    got_num = sorted(repr(("cmp", g[1], G.canon_x(g[2]), G.canon_x(g[3]))) for g in wp["goal_num"])
+    if "re-parsed" in what:
+        # the problem exporter prints numeric goals with 4 decimals (its stated precision): compare at that precision
+        def r4(g):
+            return repr(("cmp", g[1], G.canon_x(g[2]), round(float(g[3]), 4) + 0.0 if isinstance(g[3], (int, float)) else G.canon_x(g[3])))
+        want_num = sorted({r4(g) for g in P.get("goal_num", [])})
+        got_num = sorted(r4(g) for g in wp["goal_num"])
+    if got_num != want_num:
+        dup = len(got_num) != len(set(got_num))
+        raise Violation("C17/problem-union-differs", site,
+                        f"{what}: numeric goals {got_num} vs {want_num}",
+                        {"numeric_goal_duplicated": True} if dup and sorted(set(got_num)) == sorted(set(want_num)) else {})
